@@ -88,6 +88,44 @@ def gen_chain_program(rnd, depth, nonlinear):
     return apm.Program([apm.SrcFile("f0.mac", stmts)])
 
 
+def gen_dag_program(rnd):
+    """Constants whose definitions share ancestors (a = c + 1, b = c, x = a + b ...), used in sums before any of them is defined:
+    the dependency graph is a DAG, not a chain, so one variable reaches a sum along several paths."""
+    from vlib import apm
+    n = rnd.randrange(4, 8)
+    defs = [apm.assign("dg0", apm.num(rnd.randrange(1, 40)))]
+    for i in range(1, n):
+        a = ("sym", f"dg{rnd.randrange(i)}")
+        b = ("sym", f"dg{rnd.randrange(i)}")
+        form = rnd.random()
+        if form < 0.25:
+            e = a                                                         # alias
+        elif form < 0.5:
+            e = ("bin", "+", a, apm.num(rnd.randrange(0, 9)))
+        elif form < 0.75:
+            e = ("bin", rnd.choice(["+", "-"]), a, b)
+        elif form < 0.9:
+            e = ("bin", "+", ("bin", "*", apm.num(rnd.randrange(2, 4)), a), b)
+        else:
+            e = ("un", rnd.choice(["+", "-"]), a) if rnd.random() < 0.5 else ("grp", a)
+        defs.append(apm.assign(f"dg{i}", e))
+
+    def pick():
+        return ("sym", f"dg{rnd.randrange(n)}")
+
+    def total():
+        e = ("bin", rnd.choice(["+", "-"]), pick(), pick())
+        if rnd.random() < 0.5:
+            e = ("bin", rnd.choice(["+", "-"]), e, pick())
+        return ("bin", "&", ("grp", e), apm.num(0o77777))
+    uses = [apm.link(apm.num(0o2000)), apm.label("start")]
+    for _ in range(rnd.randrange(2, 6)):
+        uses.append(rnd.choice([apm.data(".word", total()), apm.insn("mov", ("imm", total()), ("reg", rnd.randrange(6))),
+                                apm.data(".word", total(), total())]))
+    uses += [apm.label("after"), apm.data(".word", ("sym", "after"))]
+    return apm.Program([apm.SrcFile("f0.mac", uses + defs)])
+
+
 ASSIGN_LINE = re.compile(r"^[ \t]*([A-Za-z_$][A-Za-z_0-9$.]*)[ \t]*=[ \t]*([^;=\n\"'/]*?)[ \t]*(;[^\n]*)?$")
 
 
@@ -163,6 +201,14 @@ def run_shard(spec):
             cnt["chain_programs"] += 1
             res["sets"]["chain_depths"].append(f"{'nonlinear' if nonlinear else 'additive'}:{depth}")
             res["distinct"].extend(f"chain|{spec['part']}|{j}|{q}" for q in range(nd))
+        for j in range(spec["chains"] * 8):
+            prog = gen_dag_program(rnd)
+            case = {"kind": "gen", "prog": apm.to_json(prog), "seed": rnd.randrange(1 << 30), "k": 8, "caseflip": rnd.random() < 0.5}
+            vs, nd = run_case(case, cnt, root)
+            res["violations"].extend(vs)
+            res["evaluations"] += 1
+            cnt["dag_programs"] = cnt.get("dag_programs", 0) + 1
+            res["distinct"].extend(f"dag|{spec['part']}|{j}|{q}" for q in range(nd))
         repo = os.environ.get("VERIF_REPO", "/repo")
         dirs = sorted(glob.glob(os.path.join(repo, "tests", "practice", "*", "")))
         for j, d in enumerate(dirs):
@@ -195,7 +241,13 @@ def run_case(case, cnt=None, root=None):
     try:
         if case["kind"] in ("gen", "chain"):
             prog = apm.from_json(case["prog"])
-            o0, t0 = meta.assemble_prog(prog, root, wall=240)
+
+            def style():
+                # every occurrence of a name in its own letter case (names are case-insensitive), when the case asks for it
+                if not case.get("caseflip"):
+                    return apm.PLAIN
+                return apm.Style(random.Random(srnd.randrange(1 << 30)), case=0.5, radix=0.0, brackets=0.0, ws=0.0)
+            o0, t0 = meta.assemble_prog(prog, root, style(), wall=240)
             if o0.cls == "stall":
                 return (out, 0) if not own else out
             obs0 = meta.observable(o0)
@@ -208,7 +260,7 @@ def run_case(case, cnt=None, root=None):
                     defs = [st for st in f.stmts if movable(st)][::-1]
                     rest = [st for st in f.stmts if not movable(st)]
                     var = apm.Program([apm.SrcFile(f.name, (rest + defs) if j == 0 else (rest[:1] + defs + rest[1:]))], prog.aux, prog.blobs, prog.charset)
-                o, t = meta.assemble_prog(var, root, wall=240)
+                o, t = meta.assemble_prog(var, root, style(), wall=240)
                 if t == t0 or o.cls == "stall":
                     continue
                 nd += 1
